@@ -13,7 +13,7 @@ mod model;
 
 pub const OP_NAMES: &[&str] = &[
     "Submit", "Recv", "Tick", "Update", "Flush", "Deliver", "Drop", "DropAll", "DeliverAll", "Hold", "Broadcast", "Mutate", "Forge",
-    "Junk", "Api", "RecvAll",
+    "Junk", "Api", "RecvAll", "ForgeSlice",
 ];
 pub const K_SUBMIT: u8 = 0;
 pub const K_RECV: u8 = 1;
@@ -31,6 +31,7 @@ pub const K_FORGE: u8 = 12;
 pub const K_JUNK: u8 = 13;
 pub const K_API: u8 = 14;
 pub const K_RECVALL: u8 = 15;
+pub const K_FORGESLICE: u8 = 16;
 
 pub const UNREL: u8 = 0;
 pub const REL_ORD: u8 = 1;
@@ -483,6 +484,7 @@ pub fn gen_cfg(family: &str, rng: &mut Rng) -> Cfg {
     let resend_menu = [0u64, 1, 50, 100, 100, 300, 300, 1000];
     let mem_menu: &[u64] = match fam {
         Fam::Budget | Fam::Lossy => &[3000, 5000, 20_000, 200_000, 200_000, 5 << 20],
+        Fam::Hostile => &[5000, 20_000, 20_000, 200_000, 5 << 20],
         _ => &[20_000, 200_000, 5 << 20],
     };
     let same_lists = rng.chance(1, 2);
